@@ -10,7 +10,9 @@ pub mod digest;
 pub mod distinfo;
 pub mod names;
 pub mod pattern;
+pub mod pkgdb;
 pub mod plist;
+pub mod scanindex;
 pub mod summary;
 
 #[derive(Default)]
@@ -63,6 +65,10 @@ pub fn run(st: &mut State, op: &str, input: &Value) -> Option<Out> {
         "distparse" => Some(distinfo::distparse(input)),
         "distbuild" => Some(distinfo::distbuild(input)),
         "verify" => Some(distinfo::verify(input)),
+        "scanindex" => Some(scanindex::scanindex(input)),
+        "pkgdb" => Some(pkgdb::pkgdb(input)),
+        "metahist" => Some(pkgdb::metahist(input)),
+        "metaname" => Some(pkgdb::metaname(input)),
         "plist" => Some(plist::plist(input)),
         "plistline" => Some(plist::plistline(input)),
         "digest" => Some(digest::digest(input)),
@@ -84,6 +90,7 @@ pub fn compare(st: &State, op: &str, case: &Value, obs: &Value) -> Vec<Mismatch>
     match op {
         "verrow" => dewey::verrow_compare(st, case, obs),
         "digest" => digest::digest_compare(case, obs),
+        "pkgdb" => pkgdb::pkgdb_compare(case, obs),
         _ if case.get("each").is_some() => {
             // element-wise comparison of equally shaped arrays under each key
             let mut ms = vec![];
